@@ -21,6 +21,7 @@ inductive Act where
   | cleanup (j : Nat)                                            -- cleanup() (the harness re-installs the callback right after)
   | init (j : Nat) (sod : Int) (mask : List Bool) (wd : Bool)    -- initialize() with another specification
   | tz (j : Nat) (minutes : Int)                                 -- setTimezone()
+  | initc (j : Nat) (e : Option Cron.Expr)                       -- CronAlarm::initialize() with another expression (none = the parser rejects it)
 deriving Repr
 
 /-- one served expiry (ghost log) -/
@@ -112,7 +113,14 @@ def wSetCb (w : World) (j : Nat) : World × Bool :=
   | none => (w, false)
   | some a => (w.put j (some { a with hasCb := true }), true)
 
+/-- CronAlarm::initialize of slot j -/
+def wInitc (w : World) (j : Nat) (x : Option Cron.Expr) : World × Bool :=
+  match w.get j with
+  | none => (w, false)
+  | some a => let r := initCron a x; (w.put j (some r.1), r.2)
+
 def applyAct (w : World) : Act → World
+  | .initc j x => (wInitc w j x).1
   | .cleanup j => (wSetCb (wCleanup w j) j).1
   | .init j sod m wd => (wInitOp w j sod m wd).1
   | .tz j m => (wTz w j m).1
@@ -175,9 +183,7 @@ def wOp (w : World) : WOp → World × Bool
       | some _ => (w, false)
       | none => ({ w.put j (some (fresh c)) with scripts := w.scripts.set j sc }, true)
   | .init j sod m wd => wInitOp w j sod m wd
-  | .initc j x => match w.get j with
-      | none => (w, false)
-      | some a => let r := initCron a x; (w.put j (some r.1), r.2)
+  | .initc j x => wInitc w j x
   | .tz j m => wTz w j m
   | .enable j => wEnable w j
   | .disable j => wDisable w j
